@@ -12,7 +12,7 @@ from ..sched.scenario import Scenario, execute, MON, DAY
 LEVEL = 'exploration'
 
 CELL = re.compile('\033\\[(\\d+m)(.*?)\033\\[0m', re.S)
-NAMES = [None, '', 'a', 'n' * 20]
+NAMES = [None, '', 'a', 'n' * 20, 'w' * 300]  # 300: wider than any fixed padding buffer
 LONG = 'v' * 30
 FIELDSETS = [None, ['id'], ['name'], ['resource'], ['estimate'], ['spent'], ['start'], ['end'], ['predecessors'], ['successors'],
              ['parent'], ['id', 'name', 'nosuch'], ['TAG', 'name'], ['id', 'children', 'name'], ['wbs', 'all_parents', 'name'],
